@@ -600,6 +600,173 @@ def c18_scenario(rep, rng, scratch, idx):
 
 
 # ------------------------------------------------------------------------------------------------
+# C12 end-to-end slice: which probe files are reported by the production binary under ignore-flag combinations
+
+C12_FLAGS = ["--no-vcs-ignore", "--no-project-ignore", "--no-global-ignore", "--no-default-ignore", "--no-discover-ignore", "--ignore-nothing"]
+
+
+def c12_active(src, flags):
+    vcs, proj, glob, dflt, disc, nothing = [f in flags for f in C12_FLAGS]
+    return {"proj_vcs": not (vcs or proj or disc or nothing), "proj_gen": not (proj or disc or nothing),
+            "glob_vcs": not (vcs or glob or disc or nothing), "glob_app": not (glob or disc or nothing),
+            "default": not (dflt or nothing), "explicit": True}[src]
+
+
+def c12_scenario(rep, rng, scratch, idx):
+    V, INC = [], []
+    flags = [f for f in C12_FLAGS if rng.random() < 0.35]
+    name = "c12-%d" % idx
+    d = os.path.join(scratch, name)
+    proj = os.path.join(d, "proj")
+    xdg = os.path.join(d, "xdg")
+    for sub in (os.path.join(proj, ".git"), os.path.join(xdg, "git"), os.path.join(xdg, "watchexec")):
+        os.makedirs(sub, exist_ok=True)
+    open(os.path.join(proj, ".git", "HEAD"), "w").write("ref: refs/heads/main\n")
+    open(os.path.join(proj, ".git", "config"), "w").write("[core]\n\tbare = false\n")
+    open(os.path.join(proj, ".gitignore"), "w").write("vcs_proj.x\n")
+    open(os.path.join(proj, ".ignore"), "w").write("gen_proj.x\n")
+    open(os.path.join(xdg, "git", "ignore"), "w").write("vcs_glob.x\n")
+    open(os.path.join(xdg, "watchexec", "ignore"), "w").write("app_glob.x\n")
+    extra = os.path.join(d, "extra.ignore")
+    open(extra, "w").write("exp_igf.x\n")
+    probes = {"vcs_proj.x": "proj_vcs", "gen_proj.x": "proj_gen", "vcs_glob.x": "glob_vcs", "app_glob.x": "glob_app",
+              "m.pyc": "default", "exp_ign.x": "explicit", "exp_igf.x": "explicit", "plain.txt": None}
+    desc = {"kind": "c12-e2e", "flags": flags}
+    out_path = os.path.join(d, "events.out")
+    wx = Wx(scratch, name, flags + ["--ignore", "exp_ign.x", "--ignore-file", extra, "--debounce", "30ms"], [],
+            cmd_override=["--only-emit-events", "--emit-events-to=json-stdio"])
+    # Wx sends stdout to /dev/null: restart with stdout captured
+    wx.cleanup()
+    cmd = wx.cmd
+    env = dict(os.environ, HOME=d, XDG_CONFIG_HOME=xdg, GIT_CONFIG_NOSYSTEM="1")
+    env.pop("RUST_LOG", None)
+    outf = open(out_path, "wb")
+    wx.err = open(os.path.join(wx.dir, "wx.err"), "ab")
+    wx.p = subprocess.Popen(cmd, cwd=proj, stdin=subprocess.DEVNULL, stdout=outf, stderr=wx.err, env=env, start_new_session=True)
+    try:
+        if not inotify_ready(wx.p.pid):
+            INC.append("watchexec-not-ready")
+            return desc, wx, V, INC
+        time.sleep(0.05)
+        for f in probes:
+            with open(os.path.join(proj, f), "w") as fh:
+                fh.write("1")
+        time.sleep(0.25)
+        # sentinels, twice, to know the pipeline has drained
+        for k in range(2):
+            with open(os.path.join(proj, "sentinel%d.txt" % k), "w") as fh:
+                fh.write("s")
+            time.sleep(0.2)
+        outf.flush()
+        seen = set()
+        sentinels = 0
+        with open(out_path, "rb") as fh:
+            for line in fh.read().decode("utf8", "replace").splitlines():
+                try:
+                    ev = json.loads(line)
+                except ValueError:
+                    continue
+                for t in ev.get("tags", []):
+                    if t.get("kind") == "path":
+                        b = os.path.basename(t.get("absolute", ""))
+                        if b.startswith("sentinel"):
+                            sentinels += 1
+                        seen.add(b)
+        if sentinels == 0:
+            INC.append("sentinel-not-reported")
+            return desc, wx, V, INC
+        rep.count("c12_e2e_probe_sets", 1)
+        for f, src in probes.items():
+            want_reported = True if src is None else not c12_active(src, flags)
+            got = f in seen
+            if got != want_reported:
+                if src == "explicit":
+                    V.append(("C12/e2e/explicit/%s/not-honoured" % f, "production binary with %s reports %s although an explicit option ignores it" % (flags, f)))
+                elif src is None:
+                    V.append(("C12/e2e/plain-file-not-reported", "production binary with %s did not report plain.txt" % flags))
+                else:
+                    V.append(("C12/e2e/source/%s/%s" % (src, "still-applied" if want_reported else "dropped"),
+                              "production binary with %s: %s is %s" % (flags, f, "reported" if got else "not reported")))
+    finally:
+        outf.close()
+    return desc, wx, V, INC
+
+
+# ------------------------------------------------------------------------------------------------
+# C17 end-to-end slice: the environment a command actually receives for real changes
+
+def c17_scenario(rep, rng, scratch, idx):
+    V, INC = [], []
+    name = "c17-%d" % idx
+    wx = Wx(scratch, name, ["--postpone", "--debounce", "120ms", "--emit-events-to=environment"], ["--dump", "--exit-after", "5", "--no-overlap-probe"])
+    desc = {"kind": "c17-e2e"}
+    try:
+        if not inotify_ready(wx.p.pid):
+            INC.append("watchexec-not-ready")
+            return desc, wx, V, INC
+        dirs = ["", "a", "a/b", "c d"]
+        for dd in dirs:
+            os.makedirs(os.path.join(wx.proj, dd), exist_ok=True)
+        time.sleep(0.3)  # directory creation events drain (they start a run of their own)
+        n0 = len(wx.starts())
+        # wait for quiet
+        t0 = time.time()
+        while time.time() - t0 < 3:
+            n1 = len(wx.starts())
+            time.sleep(0.35)
+            if len(wx.starts()) == n1:
+                break
+        n0 = len(wx.starts())
+        files = []
+        for _ in range(rng.randint(1, 4)):
+            rel = os.path.join(rng.choice(dirs), "f%d é.txt" % rng.randint(0, 99))
+            files.append(rel)
+        for rel in files:
+            with open(os.path.join(wx.proj, rel), "w") as fh:
+                fh.write("x")
+        if not wx.wait_starts(n0 + 1, 6.0):
+            INC.append("no-run-after-change")
+            return desc, wx, V, INC
+        time.sleep(0.1)
+        lines = wx.lines()
+        pid = wx.starts()[n0]["pid"]
+        envline = [l for l in lines if l["pid"] == pid and l["ev"].startswith("env")]
+        if not envline:
+            INC.append("no-env-dump")
+            return desc, wx, V, INC
+        env = {}
+        body = envline[0]["ev"][4:]
+        for kv in body.split(","):
+            if "=" in kv:
+                k, v = kv.split("=", 1)
+                env[bytes.fromhex(k).decode()] = bytes.fromhex(v).decode("utf8", "replace")
+        rep.count("c17_e2e_environments", 1)
+        common = env.get("WATCHEXEC_COMMON_PATH")
+        if common is None:
+            V.append(("C17/e2e/no-common", "the command saw no WATCHEXEC_COMMON_PATH after real file changes: %s" % sorted(env)))
+            return desc, wx, V, INC
+        recovered = set()
+        for k, v in env.items():
+            if k.startswith("WATCHEXEC_") and k.endswith("_PATH") and k != "WATCHEXEC_COMMON_PATH":
+                ents = v.split(":")
+                if ents != sorted(set(ents), key=lambda s: s.encode()):
+                    V.append(("C17/e2e/not-sorted-unique", "%s=%r is not unique and byte-sorted" % (k, v)))
+                for e in ents:
+                    recovered.add(os.path.normpath(os.path.join(common, e)))
+        want = {os.path.normpath(os.path.join(os.path.realpath(wx.proj), f)) for f in files}
+        missing = want - recovered
+        if missing:
+            V.append(("C17/e2e/changed-path-not-recoverable", "changed files %s cannot be recovered from the environment %s" % (sorted(missing), {k: v for k, v in env.items() if k.startswith("WATCHEXEC_")})))
+        stray = {r for r in recovered if not r.startswith(os.path.realpath(wx.proj))}
+        if stray:
+            V.append(("C17/e2e/entry-outside-project", "entries %s do not lie in the watched project" % sorted(stray)))
+        desc["files"] = files
+    finally:
+        pass
+    return desc, wx, V, INC
+
+
+# ------------------------------------------------------------------------------------------------
 
 def main():
     o = parse_args()
@@ -622,12 +789,16 @@ def main():
                 desc, wx, V, INC = c05_scenario(rep, lrng, scratch, i)
                 if not INC:
                     c08_cli_tail(rep, lrng, wx, desc, V)
+            elif prop == "C12":
+                desc, wx, V, INC = c12_scenario(rep, lrng, scratch, i)
+            elif prop == "C17":
+                desc, wx, V, INC = c17_scenario(rep, lrng, scratch, i)
             else:
                 desc, wx, V, INC = c18_scenario(rep, lrng, scratch, i)
             with lock:
                 rep.evaluations += 1
             h = hashlib.sha1(json.dumps(desc, sort_keys=True).encode()).hexdigest()[:16]
-            if desc.get("template") != "idle" or prop == "C18":
+            if desc.get("template") != "idle" or prop in ("C18", "C12", "C17"):
                 with lock:
                     rep.nontrivial.add(h)
             for r in INC:
